@@ -1,10 +1,161 @@
 import AcraModel.Basic.Bytes
-/-! Driver ops for C10. -/
+import AcraModel.Crypto.Shim
+import AcraModel.Token.Concurrent
+import AcraModel.Token.Data
+/-! Driver ops for C10 (tokenization). The crypto instance is `shimOps` (real SHA-256), so the record
+ids the model computes are the very ids the implementation uses. -/
 namespace Driver.C10
-open AcraModel
+open AcraModel AcraModel.Token
+
+def C := shimOps
+
+def tyOf : String → Option TokenType
+  | "int32" => some .int32 | "int64" => some .int64 | "str" => some .str
+  | "bytes" => some .bytes | "email" => some .email | _ => none
+
+def hexList (s : String) : Option (List Bytes) :=
+  if s = "_" then some [] else (s.splitOn ",").mapM ofHex
+
+def resStr : Res → String
+  | .ok b => "ok." ++ hexOf b
+  | .err => "err"
+  | .panic => "panic"
+
+def hex8 (b : Bytes) : String := String.ofList ((hexOf (b.take 4)).toList)
+
+def keyStr (k : Key) : String :=
+  -- 4 hex chars of the context bucket, the record prefix letter, 8 hex chars of the id hash
+  let pre := match k.2 with | p :: _ => String.singleton (Char.ofNat p.toNat) | [] => "?"
+  String.ofList ((hexOf (k.1.take 2)).toList) ++ pre ++ hex8 (k.2.drop 2)
+
+def evStr : Ev → String
+  | .get k (.found _) => "G" ++ keyStr k ++ "f"
+  | .get k .notFound => "G" ++ keyStr k ++ "n"
+  | .get k .disabled => "G" ++ keyStr k ++ "d"
+  | .save k true => "S" ++ keyStr k ++ "1"
+  | .save k false => "S" ++ keyStr k ++ "0"
+  | .saveFail k => "S" ++ keyStr k ++ "E"
+  | .none => "-"
+
+/-- a model thread plus how its result is rendered (DataTokenizer threads print text) -/
+structure DThread where
+  th : Option Thread     -- `none`: the text did not parse (DataTokenizer returned the parse error)
+  text : Bool
+  ty : TokenType
+
+structure DState where
+  enc : Bool
+  store : Store
+  threads : Array DThread
+  events : Array String
+
+def rndOf (ty : TokenType) (vlen : Nat) (cands : List Bytes) : Nat → Draws :=
+  fun n => drawsOf ty vlen (cands.getD n [])
+
+def stepI (st : DState) (i : Nat) : DState :=
+  match st.threads[i]? with
+  | some { th := some t, text, ty } =>
+    match t.pc with
+    | .done _ => st
+    | _ =>
+      let (s', t', ev) := stepThread C st.enc st.store t
+      { st with store := s', threads := st.threads.set! i { th := some t', text, ty },
+                events := if ev == Ev.none then st.events else st.events.push (evStr ev) }
+  | _ => st
+
+def isDone (st : DState) (i : Nat) : Bool :=
+  match st.threads[i]? with
+  | some { th := some t, .. } => match t.pc with | .done _ => true | _ => false
+  | _ => true
+
+def completeI (st : DState) (i : Nat) : Nat → DState
+  | 0 => st
+  | f + 1 => if isDone st i then st else completeI (stepI st i) i f
+
+def actOf (action sel : String) : Option (Key → Rec → Action) := do
+  let a ← match action with
+    | "disable" => some Action.disable | "enable" => some Action.enable
+    | "remove" => some Action.remove | "continue" => some Action.continue | _ => none
+  match sel with
+  | "all" => some fun _ _ => a
+  | "dis" => some fun _ r => if r.disabled then a else .continue
+  | "ena" => some fun _ r => if r.disabled then .continue else a
+  | _ => none
+
+def ctxOf (cid ac : String) : Option Ctx := do
+  let c ← ofHex cid; let a ← ofHex ac; pure ⟨c, a⟩
+
+def spawn (st : DState) (seq : Bool) (dt : DThread) : DState :=
+  let st := { st with threads := st.threads.push dt }
+  if seq then completeI st (st.threads.size - 1) 64 else st
+
+def item (st : DState) (seq : Bool) (it : String) : Option DState :=
+  match it.splitOn ":" with
+  | ["A", mode, cid, ac, ty, v, cands] => do
+    let x ← ctxOf cid ac; let ty ← tyOf ty; let v ← ofHex v; let cs ← hexList cands
+    let cons ← match mode with | "c" => some true | "r" => some false | _ => none
+    let t := Thread.start ⟨.anon cons, x, ty, v⟩ (rndOf ty v.length cs)
+    pure (spawn st seq { th := some t, text := false, ty })
+  | ["D", cid, ac, ty, v] => do
+    let x ← ctxOf cid ac; let ty ← tyOf ty; let v ← ofHex v
+    let t := Thread.start ⟨.deanon, x, ty, v⟩ (fun _ _ => 0)
+    pure (spawn st seq { th := some t, text := false, ty })
+  | ["T", mode, cid, ac, ty, text, cands] => do
+    let x ← ctxOf cid ac; let ty ← tyOf ty; let text ← ofHex text; let cs ← hexList cands
+    let cons ← match mode with | "c" => some true | "r" => some false | _ => none
+    match textToValue "Tokenize" ty text with
+    | none => pure (spawn st seq { th := none, text := true, ty })
+    | some v =>
+      let t := Thread.start ⟨.anon cons, x, ty, v⟩ (rndOf ty v.length cs)
+      pure (spawn st seq { th := some t, text := true, ty })
+  | ["U", cid, ac, ty, text] => do
+    let x ← ctxOf cid ac; let ty ← tyOf ty; let text ← ofHex text
+    match textToValue "Detokenize" ty text with
+    | none => pure (spawn st seq { th := none, text := true, ty })
+    | some v =>
+      let t := Thread.start ⟨.deanon, x, ty, v⟩ (fun _ _ => 0)
+      pure (spawn st seq { th := some t, text := true, ty })
+  | ["M", action, sel] => do
+    let act ← actOf action sel
+    pure { st with store := st.store.visit act, events := st.events.push "V" }
+  | ["R", i] => do
+    let i ← i.toNat?
+    pure (stepI st i)
+  | _ => none
+
+def render (st : DState) : String :=
+  let rs := st.threads.toList.map fun dt =>
+    match dt.th with
+    | none => "err"
+    | some t => match t.pc with
+      | .done r => resStr (if dt.text then resToText dt.ty r else r)
+      | _ => "running"
+  ",".intercalate rs ++ ";" ++ ",".intercalate st.events.toList
+
+def trace (seq : Bool) (enc : Bool) (items : List String) : Option String := do
+  let st ← items.foldlM (fun st it => item st seq it) ({ enc, store := Store.empty, threads := #[], events := #[] } : DState)
+  let st := (List.range st.threads.size).foldl (fun st i => completeI st i 64) st
+  pure (render st)
 
 def handle (op : String) (args : List String) : Option String :=
   match op, args with
+  | "trace", mode :: kind :: _seed :: items =>
+    let enc := kind.endsWith "+enc"
+    match mode with
+    | "seq" => trace true enc items
+    | "conc" => trace false enc items
+    | _ => none
+  | "gen", [ty, n, _seed, cand] => do
+    -- is `cand` in the image of the generator for a value of n bytes? (ok <hex> | panic | shape)
+    let ty ← tyOf ty; let n ← n.toNat?; let cand ← ofHex cand
+    match genToken ty n (drawsOf ty n cand) with
+    | .ok t => pure (if t = cand && shapeOK ty n cand then "ok" else "shape")
+    | _ => pure "panic"
+  | "parseint", [bits, s] => do
+    let bits ← bits.toNat?; let s ← ofHex s
+    match parseInt bits s with
+    | some i => pure ("ok " ++ String.ofList ((formatInt i).map fun b => Char.ofNat b.toNat))
+    | none => pure "err"
   | _, _ => none
 
 end Driver.C10
